@@ -52,6 +52,8 @@ import JanetModel.Compile.SeqNoBrkSem
 import JanetModel.Compile.SeqErrTail
 import JanetModel.Compile.SeqErrTailIf
 import JanetModel.Compile.SeqThunk
+import JanetModel.Compile.SeqFnParams
+import JanetModel.Compile.SeqBlockLoops
 namespace JanetModel.Props.C02
 open JanetModel.Emit
 
@@ -790,6 +792,57 @@ theorem compile_correct_thunk (p : Program) (f0 : Frame) (rest : List Frame) (V 
         doReturn p (inj f0 rest { regs := regs', pc := pc', args := #[], w := s'.st.world }) v :=
   thunk_body_correct p f0 rest V FF G b fuel c c5 body hT hne hm hl hclosed hc n cur env' s s' v hsem hV hcode hP hK regs hregs
 
+/-- **A closed statement for a function WITH symbol parameters** `(fn [a₁ … aₖ] body…)`, no captured variables: `janetc_fn`'s parameter
+    loop hands out registers 0 … k−1 in order on the fresh allocator (`firstFit_eq`) and names them in the function scope
+    (`params_loop`); `Lang/Sem.applyFn` binds one fresh box per parameter, in order, holding the argument (`bindParams`,
+    `bindAll_syms`, `pushArgs`).  With the initial registers holding the arguments (`hargs`: what the frame set-up `mkRegs` does) the
+    VM from pc 0 reaches the return of what `Lang/Sem.evalSeq` gives the body in the parameters' environment.  Otherwise as
+    `compile_correct_thunk`.  Not covered: the self name (`LOAD_SELF`), `&`-parameters, the call of the closure itself (`applyFn`'s
+    arity checks, the closure object in the heap). -/
+theorem compile_correct_fn_params (p : Program) (f0 : Frame) (rest : List Frame) (V : Array Value)
+    (FF : FloatFacts) (G : String → Prop) (b : Bool) (fuel : Nat)
+    (c c3 c5 : CState) (names : List String) (hGn : ∀ nm, nm ∈ names → ¬ G nm)
+    (body : List Expr) (hT : ∀ e, e ∈ body → TF G b e) (hne : body ≠ [])
+    (hm : c.map.length = c.buf.length) (hl : c.lim ≤ 240) (hclosed : ∀ x, lk c.scopes x = none)
+    (hpar : names.foldlM (fun (cc : CState) nm => do let (sl, cc') ← farslot cc; pure (nameslot cc' nm sl))
+      (pushScope c true false false false) = some c3)
+    (hc : fnBody (cValue fuel) body c3 = some c5)
+    (n : Nat) (cur : Pos) (env' : Env) (s s' : SS) (v : Value) (nb0 : Nat) (hnb : nb0 + names.length ≤ s.boxes.size)
+    (hsem : evalSeq n cur (bindParams names nb0 []) body s = .ok (v, env') s')
+    (hV : PrefA c5.vals V)
+    (hcode : CodeAt (p.defs.getD f0.defIdx default).code 0 (c5.buf.drop c.buf.length))
+    (hP : (c5.pools.headD []).length < 65536)
+    (hK : ∀ i, i < (c5.pools.headD []).length →
+      (p.defs.getD f0.defIdx default).consts.getD i .nil = litOf V ((c5.pools.headD []).getD i .nil))
+    (regs : Array Value) (hregs : (c5.scopes.headD default).ra.max + 1 ≤ regs.size)
+    (hargs : ∀ i, i < names.length → regs.getD i .nil = readBox s (nb0 + i)) :
+    (∃ sc5, c5.scopes = sc5 :: c.scopes ∧ sc5.fn = true ∧ sc5.start = c.buf.length ∧ c5.pools = c5.pools.headD [] :: c.pools) ∧
+    ∃ (regs' A : Array Value) (pc' : Nat) (wa : World),
+      Reach p (inj f0 rest { regs := regs, pc := 0, args := #[], w := s.st.world })
+        (inj f0 rest { regs := regs', pc := pc', args := A, w := wa }) ∧
+      step p (inj f0 rest { regs := regs', pc := pc', args := A, w := wa }) =
+        doReturn p (inj f0 rest { regs := regs', pc := pc', args := #[], w := s'.st.world }) v :=
+  fn_params_body_correct p f0 rest V FF G b fuel c c3 c5 names hGn body hT hne hm hl hclosed hpar hc n cur env' s s' v nb0 hnb hsem hV hcode
+    hP hK regs hregs hargs
+
+/-- **Blocks whose statements are fragment forms or loops**: a `do` block whose statements are forms of `TF G true` or `while` loops
+    without `break` over it (`TFW`: `compile_correct_while`'s loops), in any order, value used or dropped.  No new induction: the
+    lemmas of the statement induction are generic in the fragment predicate, and `CorrectAt` for `TFW` holds by cases
+    (`tfw_correct`: `compile_correct_if` / `compile_correct_while`); compile-only map-length fact for loops: `while_ML`.
+    (`Compile/SeqBlockLoops.lean`.)  Loops nested in loops or inside `if` branches are still not covered. -/
+theorem compile_correct_block_loops (p : Program) (f0 : Frame) (rest : List Frame) (V : Array Value) (P : List JanetModel.Emit.KConst)
+    (hP : P.length < 65536)
+    (hK : ∀ i, i < P.length → (p.defs.getD f0.defIdx default).consts.getD i .nil = litOf V (P.getD i .nil))
+    (FF : FloatFacts) (G : String → Prop) (fuel : Nat) (body : List Expr) (hT : ∀ e, e ∈ body → TFW G true e)
+    (opts : Fopts) (c c' : CState) (slot : JSlot) (sc : Scope) (rs : List Scope) (pool : List JanetModel.Emit.KConst)
+    (ps : List (List JanetModel.Emit.KConst)) (n : Nat) (cur : Pos) (env envb : Env) (s s' : SS) (v : Value)
+    (ht : opts.tail = false) (hh : opts.hint = none) (hs : c.scopes = sc :: rs) (hp : c.pools = pool :: ps) (hl : c.lim ≤ 240)
+    (hm : c.map.length = c.buf.length)
+    (hc : cDo (cValue fuel) opts body c = some (slot, c')) (hsem : evalSeq n cur env body s = .ok (v, envb) s')
+    (hE : EnvS G c.scopes env s.boxes.size sc.ra) :
+    Correct2 p f0 rest V P G opts.drop c c' slot sc rs pool ps env env s s' v :=
+  do_loops_core p f0 rest V P hP hK FF G fuel body hT opts c c' slot sc rs pool ps n cur env envb s s' v ht hh hs hp hl hm hc hsem hE
+
 /-- **The error outcome of a function body** (and of a form in tail position): `fnBody` (`janetc_fn`'s body loop: every form but the
     last dropped, the last in TAIL position) over forms of the fragment `TF G b`, and `Lang/Sem.evalSeq` of the body is an
     ERROR `.err ev epos s'` — raised in a leading statement (non-tail: `compile_correct_error`) or in the last form (tail position:
@@ -952,8 +1005,9 @@ example : ({ tail := true } : Fopts).tail = true ∧ ({ tail := true } : Fopts).
     value with the variable as hint and calls / `if` then write the variable's register directly; with `set` in the fragment the
     n-ary call needs the side condition that no operand is a variable a later operand sets: janet reads operand registers when
     the call is made), destructuring `def`, `break` and nested loops (`.brk` is a third outcome of every form: an induction like the error outcome;
-    a single `while` without `break` over the fragment is `compile_correct_while`), `fn` / closures / upvalues (`janetc_popscope`'s `keep` reservations are
-    modelled and compared word for word, not proved); (3) the
+    a single `while` without `break` over the fragment is `compile_correct_while`), `fn`: closure CREATION and calls of closures (heap relation between `Lang/Sem`'s lambdas and the VM's closure objects), the
+    self name, `&`-parameters, upvalues (`janetc_popscope`'s `keep` reservations are modelled and compared word for word, not
+    proved) — what a function's funcdef computes is proved (`compile_correct_thunk`, `compile_correct_fn_params`); (3) the
     top-level scope (`sc.top`: calls are never tail calls there, `def` makes globals); (4) far registers (`lim` > 0xF0: the
     `emit_*_correct` theorems cover the emit layer, not yet connected).  Every construct outside these theorems stays
     translation-validated: model = real compiler word for word, real bytecode run by the Lean VM = real VM = `Lang/Sem`. -/
